@@ -4,6 +4,14 @@
 //! each process prints the id-free view of everything the server answers (formatted files,
 //! titles, block at each line, backlink sets, outline paths, ordered search results) and the
 //! exported state.  Coq compares the dumps with each other and the first one with the model.
+//!
+//! LARGE libraries (`"big"` inputs, appended after the ordinary cases): `global_search` and
+//! `search_paths` work on rayon slices of the path list, and a slice is never shorter than a few
+//! hundred entries, so a library of five notes is always ONE slice whatever the pool size.  A big
+//! input is a recipe for >= 1100 tiny notes in which many notes carry the same title / the same
+//! sub-headings (ties of score, text length and rank that lie thousands of paths apart); the
+//! child processes dump only what is cheap to compare: the number of outline paths and the
+//! ordered results (key + text of the first 100 hits) of a few queries.  No model run for these.
 use crate::gal::*;
 use crate::gen;
 use crate::hist_stage::idfree;
@@ -17,7 +25,104 @@ use serde_json::{json, Value};
 use std::collections::{BTreeMap, HashMap};
 
 fn notes_of(v: &Value) -> Vec<(String, String)> {
+    if v.get("big").is_some() {
+        return big_notes(&v["big"]);
+    }
     crate::lib_stage::notes_of(v)
+}
+
+fn big_name(nested: bool, i: usize) -> String {
+    if nested && i % 10 != 0 { format!("d{}/n{:04}", i % 5, i) } else { format!("n{:04}", i) }
+}
+
+/// The notes of a big recipe `{"n", "nested", "titles": [[text, period, offset]..], "subs": [[text, period,
+/// offset]..], "rare": [word, period, offset], "refs": [[period, offset, target, block]..]}`: note `i` is
+/// `# <title>` (the first title whose period/offset matches `i`, else the unique `Note NNNN`), one `## <sub>`
+/// per matching sub-heading, `## <rare word>` where that matches, and for every matching ref a sentence with
+/// an inline link to note `target`, or (`block`) a block reference to it; both raise the rank of that note, the
+/// block reference also puts the target's outline below the referrer's.  Nothing random: the recipe is the input.
+pub fn big_notes(b: &Value) -> Vec<(String, String)> {
+    let n = b["n"].as_u64().unwrap_or(0) as usize;
+    let nested = b["nested"].as_bool().unwrap_or(false);
+    let hit = |e: &Value, i: usize| -> bool {
+        let p = e[1].as_u64().unwrap_or(1).max(1) as usize;
+        i % p == (e[2].as_u64().unwrap_or(0) as usize) % p
+    };
+    let empty = vec![];
+    let titles = b["titles"].as_array().unwrap_or(&empty);
+    let subs = b["subs"].as_array().unwrap_or(&empty);
+    let refs = b["refs"].as_array().unwrap_or(&empty);
+    let mut out = Vec::with_capacity(n);
+    for i in 0..n {
+        let title = titles.iter().find(|e| hit(e, i)).map(|e| e[0].as_str().unwrap_or("").to_string()).unwrap_or_else(|| format!("Note {:04}", i));
+        let mut text = format!("# {}\n", title);
+        for e in subs {
+            if hit(e, i) {
+                text.push_str(&format!("\n## {}\n", e[0].as_str().unwrap_or("")));
+            }
+        }
+        if b["rare"].is_array() && hit(&b["rare"], i) {
+            text.push_str(&format!("\n## {}\n", b["rare"][0].as_str().unwrap_or("")));
+        }
+        for e in refs {
+            let p = e[0].as_u64().unwrap_or(1).max(1) as usize;
+            let t = e[2].as_u64().unwrap_or(0) as usize % n.max(1);
+            if i % p == (e[1].as_u64().unwrap_or(0) as usize) % p && t != i {
+                let up = if nested && i % 10 != 0 { "../" } else { "" };
+                if e[3].as_bool().unwrap_or(false) {
+                    text.push_str(&format!("\n[that]({}{})\n", up, big_name(nested, t)));
+                } else {
+                    text.push_str(&format!("\nSee [that]({}{}) too.\n", up, big_name(nested, t)));
+                }
+            }
+        }
+        out.push((big_name(nested, i), text));
+    }
+    out
+}
+
+fn big_count(raw: &str) -> u64 {
+    raw.lines().next().and_then(|l| l.trim().parse().ok()).unwrap_or(0)
+}
+
+/// first place where the plain dump of some process differs from the one of the first process
+fn big_diag(v: &Value, raw: &[String]) -> Option<String> {
+    let first: Vec<&str> = raw.first()?.lines().collect();
+    for (k, r) in raw.iter().enumerate().skip(1) {
+        let other: Vec<&str> = r.lines().collect();
+        let t = |i: usize| v["variants"][i][0].as_u64().unwrap_or(0);
+        for i in 0..first.len().max(other.len()) {
+            let (a, b) = (first.get(i).copied().unwrap_or("(nothing)"), other.get(i).copied().unwrap_or("(nothing)"));
+            if a != b {
+                return Some(if i == 0 {
+                    format!("number of outline paths: {} with {} worker(s), {} with {}", a, t(0), b, t(k))
+                } else {
+                    let q = a.split('|').next().unwrap_or("");
+                    let nth = first[1..i].iter().filter(|l| l.split('|').next() == Some(q)).count() + 1;
+                    format!("query \"{}\", hit {} (query|key|text): `{}` with {} worker(s), `{}` with {} workers", q, nth, a, t(0), b, t(k))
+                });
+            }
+        }
+    }
+    None
+}
+
+fn big_queries(v: &Value) -> Vec<String> {
+    v["queries"].as_array().map(|a| a.iter().map(|q| q.as_str().unwrap_or("").to_string()).collect()).unwrap_or_default()
+}
+
+/// the cheap dump of a big library: number of outline paths, ordered hits `query|key|text` of every query
+fn big_dump(db: &Database, queries: &[String]) -> String {
+    let guard = |f: &dyn Fn() -> Vec<String>| -> Vec<String> {
+        std::panic::catch_unwind(std::panic::AssertUnwindSafe(f)).unwrap_or_else(|_| vec!["PANIC".to_string()])
+    };
+    let paths = guard(&|| vec![db.graph().paths().len().to_string()]);
+    let mut search = vec![];
+    for q in queries {
+        search.extend(guard(&|| db.global_search(q).iter().map(|p| format!("{}|{}|{}", q, p.key, p.search_text)).collect()));
+    }
+    let strs = |v: &[String]| glist(&v.iter().map(|s| gstr(s)).collect::<Vec<_>>());
+    gapp("IF", &["[]".to_string(), "[]".to_string(), "[]".to_string(), "[]".to_string(), strs(&paths), strs(&search)])
 }
 
 fn permute(notes: &[(String, String)], seed: u64) -> Vec<(String, String)> {
@@ -42,8 +147,20 @@ pub fn child_main(path: &str, perm: u64) {
         state.insert(n.clone(), t.clone());
     }
     let texts: BTreeMap<String, String> = notes.iter().map(|(n, t)| (Key::name(n).to_string(), t.clone())).collect();
+    let big = v.get("big").is_some();
+    let queries = big_queries(&v);
     let r = std::panic::catch_unwind(std::panic::AssertUnwindSafe(|| {
         let db = Database::new(state.clone(), true, options.clone());
+        if big {
+            // plain copy for the parent's diagnostic: `BIG <paths>` then one `BIG query|key|text` per hit
+            println!("BIG {}", db.graph().paths().len());
+            for q in &queries {
+                for p in db.global_search(q) {
+                    println!("BIG {}|{}|{}", q, p.key, p.search_text.replace('\n', " "));
+                }
+            }
+            return (big_dump(&db, &queries), "[]".to_string());
+        }
         let dump = idfree(&db, &texts);
         let mut exp: Vec<(String, String)> = db.graph().export().into_iter().collect();
         exp.sort();
@@ -67,6 +184,7 @@ pub fn execute(v: &Value) -> String {
     let exe = std::env::current_exe().unwrap();
     let mut dumps = vec![];
     let mut exports = vec![];
+    let mut raw: Vec<String> = vec![];
     for var in v["variants"].as_array().unwrap() {
         let threads = var[0].as_u64().unwrap_or(1);
         let perm = var[1].as_u64().unwrap_or(0);
@@ -75,16 +193,31 @@ pub fn execute(v: &Value) -> String {
         let (d, e) = match out {
             Ok(o) => {
                 let so = String::from_utf8_lossy(&o.stdout).to_string();
+                raw.push(so.lines().filter(|l| l.starts_with("BIG ")).map(|l| &l["BIG ".len()..]).collect::<Vec<_>>().join("\n"));
                 let d = so.lines().find(|l| l.starts_with("DUMP ")).map(|l| format!("(Some {})", l["DUMP ".len()..].replace('\u{1}', "\n")));
                 let e = so.lines().find(|l| l.starts_with("EXPORT ")).map(|l| l["EXPORT ".len()..].replace('\u{1}', "\n"));
                 (d.unwrap_or("None".into()), e.unwrap_or("[]".into()))
             }
-            Err(_) => ("None".into(), "[]".into()),
+            Err(_) => {
+                raw.push(String::new());
+                ("None".into(), "[]".into())
+            }
         };
         dumps.push(d);
         exports.push(e);
     }
     let _ = std::fs::remove_file(&f);
+    if v.get("big").is_some() {
+        // no model run for a large library; the number of search paths (first process) says how many slices there are
+        let npaths = raw.first().map(|r| big_count(r)).unwrap_or(0);
+        if let Some(d) = big_diag(v, &raw) {
+            use std::io::Write;
+            if let Ok(mut fh) = std::fs::OpenOptions::new().create(true).append(true).open(dir.join("diag.jsonl")) {
+                let _ = writeln!(fh, "{}", json!({"case_input": v, "diag": d}));
+            }
+        }
+        return gapp("C16C", &[gstr(v["ext"].as_str().unwrap_or("")), "[]".into(), "[]".into(), glist(&dumps), glist(&exports), format!("{}%N", npaths)]);
+    }
     // model inputs: reader blocks of every note (import order) and the table oracle
     let ext = v["ext"].as_str().unwrap_or("");
     let options = MarkdownOptions { refs_extension: ext.to_string() };
@@ -99,7 +232,7 @@ pub fn execute(v: &Value) -> String {
         }).collect::<Vec<_>>(),
         Err(_) => vec![],
     };
-    gapp("C16C", &[gstr(ext), glist(&notes_in), glist(&tables), glist(&dumps), glist(&exports)])
+    gapp("C16C", &[gstr(ext), glist(&notes_in), glist(&tables), glist(&dumps), glist(&exports), "0%N".to_string()])
 }
 
 pub fn generate(rng: &mut Rng, thorough: bool) -> Vec<Value> {
@@ -116,10 +249,73 @@ pub fn generate(rng: &mut Rng, thorough: bool) -> Vec<Value> {
         out.push(json!({"ext": ext, "kind": if i % 2 == 1 { "nested" } else { "flat" },
                         "notes": lib.iter().map(|n| json!([n.name, n.text])).collect::<Vec<_>>(), "variants": variants}));
     }
+    // large libraries, after the ordinary cases (their random choices come after every choice above)
+    for b in 0..(if thorough { 5 } else { 1 }) {
+        out.push(big_case(rng, b));
+    }
     out
 }
 
+const BIG_TITLES: [&str; 8] = ["Weekly review", "Inbox", "Meeting notes", "Todo", "Journal", "Project plan", "Reading list", "Ideas"];
+const BIG_SUBS: [&str; 6] = ["Tasks", "Log", "Links", "Open questions", "Next steps", "Summary"];
+const BIG_RARE: [&str; 4] = ["Zanzibar", "Quokka", "Xylophone", "Mjolnir"];
+
+/// One large library: 1100-1600 tiny notes.  The first shared title is rare (every 53rd..131st note: all its
+/// hits are inside the first 100 results and lie in every slice of the path list), the second one is frequent
+/// (every 2nd..5th note: far more than 100 tied hits); `Tasks`-like sub-headings sit under (nearly) every note;
+/// one rare word under a handful of notes; a few notes are linked from others, so ranks differ as well.
+/// The first library of a run (`b == 0`) is the plain shape: flat names, one sub-heading under every note.
+fn big_case(rng: &mut Rng, b: usize) -> Value {
+    let n = rng.range(1100, 1600);
+    let nested = b % 2 == 1;
+    let t0 = rng.below(BIG_TITLES.len());
+    let t1 = (t0 + 1 + rng.below(BIG_TITLES.len() - 1)) % BIG_TITLES.len();
+    let rare_period = *rng.pick(&[53usize, 71, 97, 113, 131]);
+    let freq_period = *rng.pick(&[2usize, 3, 5]);
+    let mut titles = vec![json!([BIG_TITLES[t0], rare_period, rng.below(rare_period)])];
+    if b > 0 || rng.chance(1, 2) {
+        titles.push(json!([BIG_TITLES[t1], freq_period, rng.below(freq_period)]));
+    }
+    let s0 = rng.below(BIG_SUBS.len());
+    let mut subs = vec![json!([BIG_SUBS[s0], 1, 0])];
+    if b > 0 {
+        let s1 = (s0 + 1 + rng.below(BIG_SUBS.len() - 1)) % BIG_SUBS.len();
+        let p = *rng.pick(&[2usize, 3, 7]);
+        subs.push(json!([BIG_SUBS[s1], p, rng.below(p)]));
+    }
+    let word = *rng.pick(&BIG_RARE);
+    let wp = rng.range(150, 400);
+    let rare = json!([word, wp, rng.below(wp)]);
+    let mut refs = vec![];
+    for _ in 0..(if b == 0 { 1 } else { rng.range(1, 3) }) {
+        let p = rng.range(40, 300);
+        // in a nested library the link is a block reference (a paragraph of its own): iwe keys an inline link by
+        // its raw url, so `../d1/n0007` typed in d2/ would not count for the rank of d1/n0007 (F-C08-rawurl)
+        refs.push(json!([p, rng.below(p), rng.below(n), nested || (b > 0 && rng.chance(1, 2))]));
+    }
+    let title0 = BIG_TITLES[t0];
+    let sub0 = BIG_SUBS[s0];
+    let queries = vec![
+        json!(""),
+        json!(title0),
+        json!(sub0),
+        json!(word.to_lowercase()),
+        json!(format!("{} {}", title0, sub0).to_lowercase()),
+    ];
+    let mut variants = vec![json!([1, 0])];
+    for t in [2u64, 3, 4, 8, 16] {
+        variants.push(json!([t, rng.below(1000)]));
+    }
+    json!({"ext": "", "kind": "big",
+           "big": {"n": n, "nested": nested, "titles": titles, "subs": subs, "rare": rare, "refs": refs},
+           "queries": queries, "variants": variants})
+}
+
 pub fn label(v: &Value) -> String {
+    if v.get("big").is_some() {
+        return format!("big:notes={}:queries={}:variants={}", v["big"]["n"].as_u64().unwrap_or(0), v["queries"].as_array().map(|a| a.len()).unwrap_or(0),
+                       v["variants"].as_array().map(|a| a.len()).unwrap_or(0));
+    }
     format!("{}:notes={}:variants={}", v["kind"].as_str().unwrap_or("?"), v["notes"].as_array().map(|a| a.len()).unwrap_or(0),
             v["variants"].as_array().map(|a| a.len()).unwrap_or(0))
 }
